@@ -146,73 +146,92 @@ func (e *Env) RSeq() {
 		}
 		vm := e.decorateValues(tn)
 		fe, fp := e.fraggerElems(fc)
-		re, rp := e.restoreElems(rc, vm)
 		for _, p := range fp {
 			e.Run.Violation("R-SEQ", fmt.Sprintf("fragger %s: %s", tn, p), e.casePos(fc), p)
 		}
-		for _, p := range rp {
-			e.Run.Violation("R-SEQ", fmt.Sprintf("restore %s: %s", tn, p), e.casePos(rc), p)
-		}
-		// drop restore's special decorations (nested source) — checked by R-DECS
-		var re2 []Elem
-		for _, el := range re {
-			if el.Kind == "D" && !strings.HasPrefix(el.Src, "Decs.") {
-				continue
-			}
-			re2 = append(re2, el)
-		}
-		// drop frozen asymmetries
-		var fe2 []Elem
-		for _, el := range fe {
-			if why, ok := seqFragOnly[tn+" "+el.Key()]; ok {
-				e.Run.Note("R-SEQ exception %s %s: %s", tn, el.Key(), why)
-				continue
-			}
-			fe2 = append(fe2, el)
-		}
-		var re3 []Elem
-		for _, el := range re2 {
-			if _, ok := seqRestoreOnly[tn+" "+el.Key()]; ok {
-				// only an exception while the fragger really lacks it
-				has := false
-				for _, f := range fe2 {
-					if f.Key() == el.Key() {
-						has = true
-					}
-				}
-				if !has {
+		filterF := func(in []Elem) []Elem {
+			var out []Elem
+			for _, el := range in {
+				if why, ok := seqFragOnly[tn+" "+el.Key()]; ok {
+					_ = why
 					continue
 				}
+				out = append(out, el)
 			}
-			re3 = append(re3, el)
+			return out
 		}
-		// align: sequences must be equal element by element
-		n := len(fe2)
-		if len(re3) > n {
-			n = len(re3)
+		fe2 := filterF(fe)
+		filterR := func(in []Elem) []Elem {
+			var out []Elem
+			for _, el := range in {
+				if el.Kind == "D" && !strings.HasPrefix(el.Src, "Decs.") {
+					continue // nested (signature) points: checked by R-DECS
+				}
+				if _, ok := seqRestoreOnly[tn+" "+el.Key()]; ok {
+					has := false
+					for _, f := range fe2 {
+						if f.Key() == el.Key() {
+							has = true
+						}
+					}
+					if !has {
+						continue
+					}
+				}
+				out = append(out, el)
+			}
+			return out
 		}
-		for i := 0; i < n; i++ {
-			nElems++
-			switch {
-			case i >= len(fe2):
-				e.Run.Violation("R-SEQ", fmt.Sprintf("%s element %d %s", tn, i, re3[i].Key()), e.Prog.Pos(re3[i].Pos),
-					fmt.Sprintf("restore emits %s which the fragger does not have (fragger sequence ended)", re3[i]))
-			case i >= len(re3):
-				e.Run.Violation("R-SEQ", fmt.Sprintf("%s element %d %s", tn, i, fe2[i].Key()), e.Prog.Pos(fe2[i].Pos),
-					fmt.Sprintf("fragger emits %s which restore does not render (restore sequence ended): positions of everything after it shift", fe2[i]))
-			default:
-				ok, why := elemEqual(fe2[i], re3[i])
-				e.Run.Check("R-SEQ", fmt.Sprintf("%s element %d %s", tn, i, fe2[i].Key()), e.Prog.Pos(re3[i].Pos), ok,
-					fmt.Sprintf("fragger(%s) vs restore(%s): %s", e.Prog.Pos(fe2[i].Pos), e.Prog.Pos(re3[i].Pos), why))
-				if !ok {
-					// after the first mismatch the remaining alignment is noise
-					i = n
+		// restore never renders a decoration point conditionally
+		all, _ := e.restoreElems(rc, vm)
+		for _, el := range all {
+			if el.Kind == "D" && normGuard(el.Guard) != "" {
+				e.Run.Violation("R-SEQ", fmt.Sprintf("%s point %s rendered unconditionally", tn, el.Name), e.Prog.Pos(el.Pos), "restore renders decoration "+el.Name+" only under "+el.Guard)
+			}
+		}
+		// the two sequences must be equal under every valuation of the guard atoms: each valuation
+		// selects one straight-line execution of both cases
+		atoms := map[string]bool{}
+		elemAtoms(fe2, atoms)
+		e.eventAtoms(rc, vm, atoms)
+		vals, okV := valuations(atoms, 10)
+		key := fmt.Sprintf("%s: fragger and restore emit the same sequence under every guard valuation", tn)
+		if !okV {
+			e.Run.Undecided("R-SEQ", key, e.casePos(rc), fmt.Sprintf("%d guard atoms: too many to enumerate", len(atoms)))
+			continue
+		}
+		nElems += len(filterR(all))
+		okAll, detail := true, fmt.Sprintf("%d elements, %d guard atoms, %d valuations", len(all), len(atoms), len(vals))
+		seenProblem := map[string]bool{}
+		for _, v := range vals {
+			rel, rp := e.restoreElemsUnder(rc, vm, v)
+			for _, p := range rp {
+				if !seenProblem[p] {
+					seenProblem[p] = true
+					e.Run.Violation("R-SEQ", fmt.Sprintf("restore %s: %s", tn, p), e.casePos(rc), p+" (when "+valString(v)+")")
 				}
 			}
+			a, b := flatten(fe2, v, true), flatten(filterR(rel), nil, false)
+			if okAll && strings.Join(a, " ") != strings.Join(b, " ") {
+				okAll = false
+				k := 0
+				for k < len(a) && k < len(b) && a[k] == b[k] {
+					k++
+				}
+				fa, rb := "(end)", "(end)"
+				if k < len(a) {
+					fa = a[k]
+				}
+				if k < len(b) {
+					rb = b[k]
+				}
+				detail = fmt.Sprintf("when %s: element %d differs: fragger(%s) emits %s, restore(%s) emits %s — synthetic positions after this point shift against the fragments the decorator attached comments to", valString(v), k, e.casePos(fc), fa, e.casePos(rc), rb)
+			}
 		}
+		e.Run.Check("R-SEQ", key, e.casePos(rc), okAll, detail)
 	}
 	e.Run.Analysed("schema elements compared", nElems)
-	e.Run.Floor("R-SEQ", "schema elements compared fragger⇄restore", nElems, 365)
+	e.Run.Floor("R-SEQ", "schema elements compared fragger⇄restore", nElems, 300)
 }
 
 // ---------------------------------------------------------------------------------------------
@@ -448,7 +467,7 @@ func (e *Env) RSym() {
 		n++
 	}
 	e.Run.Analysed("value/field facts", n)
-	e.Run.Floor("R-SYM", "field facts compared decorate⇄restore", n, 700)
+	e.Run.Floor("R-SYM", "field facts compared decorate⇄restore", n, 600)
 }
 
 // twinConstants: the named constants of twin types (ast.ChanDir/dst.ChanDir ...) are pairwise
